@@ -29,9 +29,21 @@ VARIABLES now, last, up, sends, will, hist,
 \* keep-alive ("long": 60 s): the keep-alive is a matter of the connection, what counts is this CONNECT's value
 CONSTANT Priors
 VARIABLE prior
-vars == <<now, last, up, sends, will, hist, fed, prior>>
+\* deaf: the client never reads what the broker sends it.  A deaf client that is fed has its outgoing ring full before long,
+\* with the feeder's delivery blocked on it - the state in which the expiry of its keep-alive has to get rid of it
+VARIABLE deaf
+\* Named deviation of the implementation (known finding C19 stalled-receiver).  The deadline only runs while the receiver is
+\* inside a read.  A deaf, fed client's outgoing ring is full and the feeder's delivery waits on it holding the connection's
+\* write lock; once the client has sent a packet that must be answered (PINGREQ), its own processor waits for that lock and
+\* consumes nothing more (answerDue); input that then fills the incoming ring to within a read block (partbig) leaves the
+\* receiver waiting for room, outside any read: no deadline runs, the client is never dropped (stalled).
+CONSTANT DevStalledReceiver
+VARIABLES answerDue, stalled
+vars == <<now, last, up, sends, will, hist, fed, prior, deaf, answerDue, stalled>>
 
 Init == now = 0 /\ last = 0 /\ up = TRUE /\ sends = 0 /\ will = FALSE /\ hist = <<>> /\ fed \in BOOLEAN /\ prior \in Priors
+        /\ deaf \in BOOLEAN /\ (deaf => fed /\ prior = "none")
+        /\ answerDue = FALSE /\ stalled = FALSE
 
 \* the last thing the client sent was the beginning of a packet ("part1": its first byte, "part3": a PUBLISH header
 \* announcing more than follows): these are bytes like any others (the deadline counts from them), and the rest never comes
@@ -48,25 +60,34 @@ Hold(kind) == IF kind = "backlog" THEN BacklogHold ELSE 0
 
 \* the client lets g grid units pass and then sends a packet of the given kind
 Send(g, kind) ==
-  /\ up /\ sends < MaxSends /\ g \in Gaps /\ ~MidPacket
+  /\ up /\ sends < MaxSends /\ g \in Gaps /\ ~MidPacket /\ ~(deaf /\ kind = "backlog")
   /\ now' = now + g + Hold(kind) /\ last' = now + g + Hold(kind) /\ sends' = sends + 1
-  /\ hist' = Append(hist, [gap |-> g, kind |-> kind, expect |-> "up", fed |-> fed, prior |-> prior, hold |-> Hold(kind)])
-  /\ UNCHANGED <<up, will, fed, prior>>
+  /\ hist' = Append(hist, [gap |-> g, kind |-> kind, expect |-> "up", fed |-> fed, prior |-> prior, hold |-> Hold(kind), deaf |-> deaf])
+  /\ answerDue' = (answerDue \/ (deaf /\ kind = "ping"))
+  /\ stalled' = (stalled \/ (DevStalledReceiver /\ answerDue' /\ kind = "partbig"))
+  /\ UNCHANGED <<up, will, fed, prior, deaf>>
 
 \* the client stays silent for g units: the deadline passes, the broker drops the connection
 \* as an abnormal end (will published); whatever the client sends afterwards finds it gone
 Silence(g) ==
-  /\ up /\ g \in LongGaps
+  /\ up /\ g \in LongGaps /\ ~stalled
   /\ now' = now + g /\ up' = FALSE /\ will' = TRUE
-  /\ hist' = Append(hist, [gap |-> g, kind |-> "none", expect |-> "dropped", fed |-> fed, prior |-> prior, hold |-> 0])
-  /\ UNCHANGED <<last, sends, fed, prior>>
+  /\ hist' = Append(hist, [gap |-> g, kind |-> "none", expect |-> "dropped", fed |-> fed, prior |-> prior, hold |-> 0, deaf |-> deaf])
+  /\ UNCHANGED <<last, sends, fed, prior, deaf, answerDue, stalled>>
+\* the deviation: the silence passes and the connection is still there (the replayer reports it as the known finding when
+\* it observes this, and says nothing when the connection was dropped after all)
+SilenceStalled(g) ==
+  /\ up /\ g \in LongGaps /\ stalled
+  /\ now' = now + g /\ sends' = MaxSends
+  /\ hist' = Append(hist, [gap |-> g, kind |-> "none", expect |-> "stalled", fed |-> fed, prior |-> prior, hold |-> 0, deaf |-> deaf])
+  /\ UNCHANGED <<last, up, will, fed, prior, deaf, answerDue, stalled>>
 
-Next == (\E g \in Gaps, k \in Kinds : Send(g, k)) \/ (\E g \in LongGaps : Silence(g))
+Next == (\E g \in Gaps, k \in Kinds : Send(g, k)) \/ (\E g \in LongGaps : Silence(g) \/ (hist # <<>> /\ hist[Len(hist)].expect # "stalled" /\ SilenceStalled(g)))
 Spec == Init /\ [][Next]_vars
 
 \* an expiry only ever happens after at least 1.2 K of silence, and none is overdue
 ActiveNeverDropped == [][(up /\ ~up') => (now' - last >= 12)]_vars
-SilentDropped == up => now - last < 16
+SilentDropped == (up /\ ~stalled) => now - last < 16
 WillIffExpired == will <=> ~up
-Emit == up \/ PrintT(ToJson(hist))
+Emit == (up /\ ~(hist # <<>> /\ hist[Len(hist)].expect = "stalled")) \/ PrintT(ToJson(hist))
 =============================================================================
